@@ -334,8 +334,10 @@ func (x *Exec) scanBoxed(body ast.Node) {
 	})
 }
 
-// frameObligations: everything not named by a modifies clause is unchanged (on objects that
-// existed at entry).
+// frameObligations: every location written on some path is either named by a modifies clause or
+// belongs to an object allocated by this call. The final value of each heap component is a tree of
+// ite/store over its entry symbol; the written indices are read off that tree, so the obligations
+// are quantifier-free: path condition of the write => index is one of the named locations.
 func (x *Exec) frameObligations(entry, final *State, alloc0 *Term) {
 	con := x.con
 	if con.ModAll {
@@ -366,10 +368,7 @@ func (x *Exec) frameObligations(entry, final *State, alloc0 *Term) {
 		if !ok {
 			et = x.heapGet(entry, name, ft.sort)
 		}
-		if ft == et || name == "alloc" {
-			continue
-		}
-		if strings.HasPrefix(name, "ghost.lockdepth") {
+		if ft == et || name == "alloc" || strings.HasPrefix(name, "ghost.lockdepth") {
 			continue
 		}
 		locs := allowed[name]
@@ -382,22 +381,79 @@ func (x *Exec) frameObligations(entry, final *State, alloc0 *Term) {
 		if whole {
 			continue
 		}
-		var goal *Term
+		obName := fmt.Sprintf("%s/frame.%s", con.Key, name)
+		text := "only locations named by modifies (or freshly allocated) are written: " + name
 		if !ft.sort.IsArray() {
-			goal = c.Eq(ft, et)
-		} else {
-			is, _ := ft.sort.ArrayParts()
-			if is != SInt {
-				goal = c.Eq(ft, et)
-			} else {
-				r := c.Bound("r", SInt)
-				conds := []*Term{c.Select(alloc0, r)}
-				for _, l := range locs {
-					conds = append(conds, c.Neq(r, l.ref))
-				}
-				goal = c.Forall([]*Term{r}, c.Implies(c.And(conds...), c.Eq(c.Select(ft, r), c.Select(et, r))))
-			}
+			x.oblige(final, obName, "frame", text, c.Eq(ft, et))
+			continue
 		}
-		x.oblige(final, fmt.Sprintf("%s/frame.%s", con.Key, name), "frame", "unchanged outside modifies: "+name, goal)
+		if is, _ := ft.sort.ArrayParts(); is != SInt {
+			x.oblige(final, obName, "frame", text, c.Eq(ft, et))
+			continue
+		}
+		// collect (path condition, written index) pairs
+		type wr struct {
+			cond *Term
+			idx  *Term // nil: unknown base (component replaced wholesale)
+		}
+		var writes []wr
+		seen := map[string]bool{}
+		var walk func(t *Term, cond *Term)
+		walk = func(t *Term, cond *Term) {
+			if t == et || cond.IsFalse() {
+				return
+			}
+			key := fmt.Sprintf("%d|%d", t.id, cond.id)
+			if seen[key] {
+				return
+			}
+			seen[key] = true
+			if t.kind == kApp && t.op == "ite" {
+				walk(t.args[1], c.And(cond, t.args[0]))
+				walk(t.args[2], c.And(cond, c.Not(t.args[0])))
+				return
+			}
+			if t.kind == kApp && t.op == "store" {
+				writes = append(writes, wr{cond, t.args[1]})
+				walk(t.args[0], cond)
+				return
+			}
+			writes = append(writes, wr{cond, nil})
+		}
+		walk(ft, c.True())
+		var goals []*Term
+		for _, w := range writes {
+			if w.idx == nil {
+				goals = append(goals, c.Not(w.cond))
+				continue
+			}
+			if isFreshRef(w.idx) {
+				continue
+			}
+			var alts []*Term
+			for _, l := range locs {
+				alts = append(alts, c.Eq(w.idx, l.ref))
+			}
+			goals = append(goals, c.Implies(w.cond, c.Or(alts...)))
+		}
+		x.oblige(final, obName, "frame", text, c.And(goals...))
+	}
+}
+
+// isFreshRef: the reference is (an embedded address or element of) an object allocated by this call.
+func isFreshRef(t *Term) bool {
+	for {
+		switch {
+		case t.kind == kConst:
+			return strings.HasPrefix(t.op, "new_")
+		case t.kind == kApp && t.op == "+" && len(t.args) == 2 && t.args[1].kind == kIntLit && t.args[0].kind == kApp && t.args[0].op == "*" && t.args[0].args[1].kind == kIntLit:
+			t = t.args[0].args[0]
+		case t.kind == kApp && t.op == "elemref":
+			t = t.args[0]
+		case t.kind == kApp && t.op == "ite":
+			return isFreshRef(t.args[1]) && isFreshRef(t.args[2])
+		default:
+			return false
+		}
 	}
 }
